@@ -3,6 +3,8 @@
 package engines
 
 import (
+	"strings"
+	"bytes"
 	"context"
 	"fmt"
 	mathrand "math/rand"
@@ -133,8 +135,13 @@ func raceListener(t *testing.T, rng *mathrand.Rand) {
 	if err != nil {
 		t.Fatal(err)
 	}
+	// facts that load cannot disturb: the state reported for a connection is the state of one client, no client's state is
+	// reported twice, and the record of a node that got in is filed under its own key
+	var seenMu sync.Mutex
+	var seen []int
+	connected := map[int][]byte{}
 	var awg sync.WaitGroup
-	for i := 0; i < 3; i++ {
+	for i := 0; i < 8; i++ {
 		awg.Add(1)
 		go func() {
 			defer awg.Done()
@@ -147,15 +154,20 @@ func raceListener(t *testing.T, rng *mathrand.Rand) {
 					return
 				}
 				if pc, ok := c.(*protocol.Conn); ok {
-					_ = pc.ClientState()
+					cs := pc.ClientState()
 					_ = pc.ClientNextProtos()
+					if strings.HasPrefix(pc.ConnectionState().NegotiatedProtocol, nodeenrollment.AuthenticateNodeNextProtoV1Prefix) && cs != nil {
+						seenMu.Lock()
+						seen = append(seen, int(cs.Fields["i"].GetNumberValue()))
+						seenMu.Unlock()
+					}
 				}
 				c.Close()
 			}
 		}()
 	}
 	var wg sync.WaitGroup
-	n := 3 + rng.Intn(4)
+	n := 6 + rng.Intn(18)
 	for i := 0; i < n; i++ {
 		wg.Add(1)
 		useToken := rng.Intn(2) == 0
@@ -189,10 +201,35 @@ func raceListener(t *testing.T, rng *mathrand.Rand) {
 			c, err := protocol.Dial(dctx, ns, base.Addr().String(), append(dopts, nodeenrollment.WithState(s))...)
 			if err == nil {
 				c.Close()
+				if nc, lerr := types.LoadNodeCredentials(ctx, ns, nodeenrollment.CurrentId); lerr == nil {
+					seenMu.Lock()
+					connected[i] = nc.CertificatePublicKeyPkix
+					seenMu.Unlock()
+				}
 			}
 		}()
 	}
 	wg.Wait()
 	il.Close()
 	awg.Wait()
+	cnt := map[int]int{}
+	for _, v := range seen {
+		cnt[v]++
+		if v < 0 || v >= n {
+			fmt.Printf("ISOLATION-VIOLATION a connection reported client state i=%d, which no client of this round supplied\n", v)
+			t.Fail()
+		}
+	}
+	for i, pk := range connected {
+		if cnt[i] != 1 {
+			fmt.Printf("ISOLATION-VIOLATION client %d connected once but its state was reported for %d server-side connections (all reports: %v)\n", i, cnt[i], seen)
+			t.Fail()
+		}
+		kid, _ := nodeenrollment.KeyIdFromPkix(pk)
+		ni, err := types.LoadNodeInformation(ctx, st, kid)
+		if err != nil || !bytes.Equal(ni.CertificatePublicKeyPkix, pk) {
+			fmt.Printf("ISOLATION-VIOLATION client %d authenticated, but the server holds no record of its key under its own key ID (%v)\n", i, err)
+			t.Fail()
+		}
+	}
 }
